@@ -5,7 +5,7 @@ import numpy as rnp
 EXPLANATION = ('C12: zernike_compose / zernike_fit / zernike_remove with symbolic coefficient vectors and symbolic OPD samples on concrete masks '
                '(the basis and its pseudo-inverse are the real numpy results, as at a C boundary); obligations are linear real arithmetic with a 1e-9 tolerance for the float weights.')
 BOUNDS = {
-    'quick': 'masks: circular, hexagon-like, two-island, off-centre on arrays 5x5..7x7 (even and odd); every ordered subset of <= 3 modes from Noll 1..6 with condition number < 1e8 (sampled 90); normalize T/F; default and caller-supplied (rho, theta)',
+    'quick': 'masks: circular, hexagon-like, two-island, off-centre on arrays 5x5..7x7 (even and odd); every ordered subset of <= 3 modes from Noll 1..6 with condition number < 1e8 (sampled 260); normalize T/F; default and caller-supplied (rho, theta)',
     'thorough': 'arrays up to 9x9; ordered subsets of <= 4 modes from Noll 1..11 (sampled 600)',
 }
 ASSUMPTIONS = ['|coefficient| <= 1 and |opd sample| <= 1 (scale of the 1e-9 tolerance)', 'mode sets whose basis is ill-conditioned on the mask (cond >= 1e8) are skipped: the property presupposes linear independence']
@@ -29,7 +29,7 @@ def _mask(kind, n):
 def configs(tier, seed):
     rng = random.Random(1212 + seed)
     sizes = [5, 6, 7] if tier == 'quick' else [5, 6, 7, 8, 9]
-    top, kmax, want = (6, 3, 90) if tier == 'quick' else (11, 4, 600)
+    top, kmax, want = (6, 3, 260) if tier == 'quick' else (11, 4, 600)
     subsets = [list(p) for k in range(1, kmax + 1) for p in itertools.permutations(range(1, top + 1), k)]
     out = []
     for _ in range(want):
